@@ -59,7 +59,7 @@ fn forward(m: &RLib, ctx: &mut Ctx) -> Result<(), String> {
     }
     ctx.sample("raw library", || {
         let mut s = format!("{:?}", m);
-        s.truncate(1200);
+        crate::engine::clip(&mut s, 1200);
         s
     });
     let back = raw::Library::from_proto(plib, None).map_err(|e| format!("import of the exported message failed: {:?}", e))?;
@@ -297,7 +297,7 @@ fn backward_case(src: &mut Src, ctx: &mut Ctx) -> Result<(), String> {
     ctx.label("protobuf -> raw -> protobuf");
     ctx.sample("protobuf library", || {
         let mut s = format!("{:?}", msg);
-        s.truncate(1200);
+        crate::engine::clip(&mut s, 1200);
         s
     });
     let lib = raw::Library::from_proto(msg.clone(), Some(raw::utils::Ptr::new(layers))).map_err(|e| format!("from_proto of a supported message failed: {:?}", e))?;
